@@ -245,6 +245,95 @@ def t2(prog, rep):
     rep.check(len(pads) == 1, "T2-alphabet", "b64encode pads with '='", f.loc, "", function="b64encode", construct="pad")
 
 
+
+def t2_padding(prog, rep):
+    """b64decode accepts exactly the strings b64encode can produce: '=' only as a suffix of at most two characters.  The
+    validation pass counts '=' characters; an alphabet character seen while that count is non-zero is rejected, a count
+    above two is rejected, and the count is what is subtracted from the output length.  (The alphabet test itself and the
+    multiple-of-four test are J2 / T2.)"""
+    f = prog.func("util/b64encode.c", "b64decode")
+    if f is None:
+        raise cdb.AnalysisBroken("anchor missing: b64decode")
+    EQ = ("c", ord("="))
+    # the counter: the variable incremented on the `in[i] == '='` edge
+    cnt = None
+    for e in f.all_elems():
+        st = ir.step(e)
+        if st and st[0] == "+=" and st[2] == ("c", 1) and st[1][0] == "v":
+            at = [(op, L, R) for cond, truth in f.edge_conds(e) for op, L, R, _, _ in cond_atoms(cond, truth)]
+            if any(op == "==" and R == EQ and L[0] == "[]" for op, L, R in at):
+                cnt = st[1]
+                inc = e
+    if cnt is None:
+        rep.bad("T2-padding", "b64decode counts '=' characters", f.loc, "no counter incremented exactly on the in[i] == '=' edge was found", function=f.name, construct="pad-count")
+        return
+    rets = {norm(r.kid(0)): r for r in f.returns()}
+    bad = [r for v, r in rets.items() if v != ("c", 0)]
+    # edges into the rejecting return: collect the atom sets of the branches that lead straight to it
+    def rejects(pred):
+        for b in f.blocks.values():
+            if b.cond is None or len(b.succs) != 2:
+                continue
+            for truth, succ in ((True, b.succs[0]), (False, b.succs[1])):
+                if succ is None:
+                    continue
+                vals, seen = f.returns_from(succ)
+                if not vals or any(v == ("c", 0) for v in vals):
+                    continue
+                # the atoms known on this edge: the branch's own and those of dominating branches of the same condition chain
+                at = [(op, L, R) for op, L, R, _, _ in cond_atoms(b.cond, truth)]
+                for cond, tr in f.edge_conds(b.cond) if b.cond is not None else []:
+                    at += [(op, L, R) for op, L, R, _, _ in cond_atoms(cond, tr)]
+                if pred(at):
+                    return True
+        return False
+    after = rejects(lambda at: any(op == "!=" and R == EQ and L[0] == "[]" for op, L, R in at) and any((op == ">" and L == cnt and R == ("c", 0)) or (op == "!=" and L == cnt and R == ("c", 0)) for op, L, R in at))
+    rep.check(after, "T2-padding", "an alphabet character after a '=' is rejected", f.loc,
+              "no rejecting edge under (in[i] != '=' and the '=' count is non-zero): '=' could appear inside the text, e.g. \"AA=A\"", function=f.name, construct="pad-suffix")
+    many = rejects(lambda at: any(op == ">" and L == cnt and R == ("c", 2) for op, L, R in at))
+    rep.check(many, "T2-padding", "more than two '=' are rejected", f.loc, "no rejecting edge under count > 2", function=f.name, construct="pad-max")
+    sub = [e for e in f.all_elems() if e.is_assign and e.op == "-=" and norm(e.kid(1)) == cnt and norm(e.kid(0))[0] == "*"]
+    rep.check(len(sub) == 1, "T2-padding", "the output length is reduced by the number of '=' characters", f.loc, "", function=f.name, construct="pad-len")
+
+
+
+def t3_escape(prog, rep):
+    """skip_string keeps track of escapes: after a backslash the next character is consumed whatever it is (so an escaped
+    backslash cannot hide the closing quote and an escaped quote cannot end the string), and after \\u four more.  Otherwise a
+    string value such as "C:\\\\" desynchronises the walker and json_find misses every later key."""
+    u = prog.unit("util/json.c")
+    f = u.func("skip_string")
+    if f is None:
+        raise cdb.AnalysisBroken("anchor missing: skip_string")
+    ps = [p for p in f.params if p["name"] == "buf"]
+    if not ps:
+        rep.defer_broken("T3-escape: skip_string has no parameter buf")
+        return
+    P = ("v", "buf", ps[0]["id"])
+    BS, U, Q = ("c", ord("\\")), ("c", ord("u")), ("c", ord('"'))
+    # reads that consume: *buf++
+    reads = [e for e in f.all_elems() if e.cls == "UnaryOperator" and e.op == "*" and norm(e) == ("*", ("upost++", P))]
+    def atoms_of(e):
+        return [(op, L, R) for cond, truth in f.edge_conds(e) for op, L, R, _, _ in cond_atoms(cond, truth)]
+    esc = [r for r in reads if any(op == "==" and R == BS for op, L, R in atoms_of(r))]
+    ok = len(esc) == 1
+    why = "no consuming read on the backslash edge" if not esc else ""
+    if ok:
+        at = atoms_of(esc[0])
+        # the consumption must not depend on what the next character is: no dominating test of the unread byte
+        peek = [(op, L, R) for op, L, R in at if L in (("*", P), ("[]", P, ("c", 0))) and R[0] == "c"]
+        ok = not peek
+        why = "the character after a backslash is consumed only when it is %s: other escapes (an escaped backslash) are not skipped" % [chr(R[1]) for _, _, R in peek] if peek else ""
+    rep.check(ok, "T3-escape", "skip_string consumes the character after a backslash unconditionally", (esc[0].where if esc else f.loc), why, function=f.name, construct="escape-next")
+    adv = [e for e in f.all_elems() if ir.step(e) and ir.step(e)[1] == P and ir.step(e)[0] == "+=" and ir.step(e)[2] == ("c", 4)]
+    ok4 = len(adv) == 1 and any(op == "==" and R == U for op, L, R in atoms_of(adv[0])) and any(op == ">=" and R == ("c", 4) and L[0] == "-" for op, L, R in atoms_of(adv[0]))
+    rep.check(ok4, "T3-escape", "\\u consumes four more characters, behind end - buf >= 4", (adv[0].where if adv else f.loc), "", function=f.name, construct="escape-u")
+    # the closing quote is recognised only on an unescaped character: the quote test is on the loop's first read
+    first = [r for r in reads if r not in esc]
+    okq = len(first) == 1 and any(op == "==" and R == Q for b in f.blocks.values() if b.cond is not None for op, L, R, _, _ in cond_atoms(b.cond, True))
+    rep.check(okq, "T3-escape", "the closing quote is tested on the unescaped read", f.loc, "", function=f.name, construct="escape-quote")
+
+
 SEPS = (ord(","), ord(":"))
 
 
@@ -334,6 +423,47 @@ def t3(prog, rep):
                 rep.ok("T3-sepws", inst, b.cond.where, "skip_ws intervenes on every path")
     if n < 5:
         rep.defer_broken("T3: fewer than 5 separator-consuming sites in json.c")
+
+
+
+def t4_defined(prog, rep):
+    """Addresses are compared, duplicated and serialised bytewise (memcmp / memcpy over namelen bytes), so every byte of an
+    object that becomes a sock_addr's name must be defined: it comes from calloc, or from malloc followed by a memset or
+    memcpy of the same size.  Assigning the fields one by one leaves padding and unnamed members (sin6_scope_id) undefined:
+    the same textual address then resolves to unequal addresses."""
+    n = 0
+    for up in ("util/sock.c", "util/sock_util.c"):
+        u = prog.unit(up)
+        for f in u.funcs:
+            if f.file != up:
+                continue
+            for e in f.all_elems():
+                if not (e.is_assign and e.op == "=" and norm(e.kid(0))[0] == "." and norm(e.kid(0))[2] == "name"):
+                    continue
+                n += 1
+                src = e.kid(1).strip()
+                tgt_terms = [norm(e.kid(0))]
+                alloc = None
+                if src.cls == "CallExpr":
+                    alloc = src
+                else:
+                    v = norm(src)
+                    tgt_terms.append(v)
+                    defs = [d for d in f.all_elems() if d.is_assign and d.op == "=" and norm(d.kid(0)) == v and d.kid(1).strip().cls == "CallExpr"]
+                    if len(defs) == 1:
+                        alloc = defs[0].kid(1).strip()
+                ok = False
+                why = "the object's origin is not a single allocation in this function"
+                if alloc is not None and alloc.callee == "calloc":
+                    ok = True
+                elif alloc is not None and alloc.callee == "malloc":
+                    size = norm(alloc.arg(0))
+                    fills = [c for c in f.calls(("memcpy", "memset")) if norm(c.arg(0)) in tgt_terms and norm(c.arg(2)) == size and f.dominates(alloc, c)]
+                    ok = bool(fills)
+                    why = "malloc(%s) with no memset/memcpy of that size into it: padding and members not assigned one by one stay undefined" % show(size)
+                rep.check(ok, "T4-defined", "%s in %s: every byte of the address object is defined" % (e.text[:40], f.name), e.where, why, function=f.name, construct="name-defined")
+    if n < 5:
+        rep.defer_broken("T4-defined: fewer than 5 stores into a sock_addr's name found")
 
 
 def t4(prog, rep):
@@ -471,6 +601,9 @@ def run(tier):
         t2(prog, rep)
         t3(prog, rep)
         t4(prog, rep)
+        t4_defined(prog, rep)
+        t2_padding(prog, rep)
+        t3_escape(prog, rep)
     rep.require_min("T1-endian", 12)
     rep.require_min("T3-sepws", 5)
     rep.require_min("T4-sockaddr", 8)
